@@ -222,6 +222,15 @@ func c15(c *Ctx) {
 	c14ExportBuffer(c, "C15.8/export-carries-the-read-bytes")
 	exprTextRule(c, "C15.9/expression-text-round-trips")
 	c15PresenceGuardsOnly(c, "C15.10/conversion-guards-are-presence-tests")
+	c15ValueUsedOnSuccessOnly(c, "C15.12/fallible-getter-value-used-on-success-only", func(f *ssa.Function) bool {
+		// the converters between the store's types and their messages (module-wide the shape also matches partial results
+		// such as the byte count of a failed Write, returned on purpose)
+		if !fnInPkgs(f, []string{"pkg/api/schema"}) {
+			return false
+		}
+		fn := c.Fset.Position(f.Pos()).Filename
+		return !strings.HasSuffix(fn, ".pb.go") && !strings.HasSuffix(fn, ".pb.gw.go") && !strings.HasSuffix(fn, "_test.go")
+	}, 3)
 	c15NoLoopCarriedArgs(c, "C15.11/index-entry-carries-its-own-transaction-metadata", "embedded/store.(*indexer).indexSince", "embedded/store.serializeIndexableEntry", 2)
 	// ---- C15.4 (keys) nanosecond keys are built only from timestamps that fit ----------------------------------------
 	// the key codec holds UnixNano() in 8 bytes: outside 1677..2262 UnixNano is undefined and the key order is not the
@@ -680,5 +689,91 @@ func c15NoLoopCarriedArgs(c *Ctx, r, fn, callee string, floor int) {
 				c.ok(r, construct, c.pos(in.Pos()), "computed within the iteration that serializes it")
 			}
 		}
+	}
+}
+
+// c15ValueUsedOnSuccessOnly: the value a fallible getter returns next to its error means something when the error is
+// nil. A use of the value that is reachable only through the error edge of its own call (the inverted check
+// `v, err := get(); if err != nil { use(v) }`) uses the zero value instead of the attribute and, on the success path,
+// drops the attribute altogether.
+var c15PartialResultOK = map[string]string{}
+
+func c15ValueUsedOnSuccessOnly(c *Ctx, r string, inScope func(*ssa.Function) bool, floor int) {
+	n := 0
+	for _, f := range c.allFns {
+		if len(f.Blocks) == 0 || !inScope(f) {
+			continue
+		}
+		k := 0
+		allInstrs(f, false, func(in ssa.Instruction) {
+			call, ok := in.(*ssa.Call)
+			if !ok {
+				return
+			}
+			res := call.Call.Signature().Results()
+			if res.Len() < 2 || res.At(res.Len()-1).Type().String() != "error" {
+				return
+			}
+			// the edges on which the error of this call is known to be non-nil (comparison with nil only)
+			var edges []cfgEdge
+			for _, ev := range errResults(call) {
+				for _, rr := range *ev.Referrers() {
+					bo, ok := rr.(*ssa.BinOp)
+					if !ok || (bo.Op != token.NEQ && bo.Op != token.EQL) {
+						continue
+					}
+					other := bo.Y
+					if bo.Y == ev {
+						other = bo.X
+					}
+					if cst, isC := other.(*ssa.Const); !isC || !cst.IsNil() {
+						continue
+					}
+					for _, r3 := range *bo.Referrers() {
+						if ifi, ok := r3.(*ssa.If); ok {
+							succ := 0
+							if bo.Op == token.EQL {
+								succ = 1
+							}
+							edges = append(edges, cfgEdge{ifi.Block(), succ})
+						}
+					}
+				}
+			}
+			if len(edges) == 0 {
+				return
+			}
+			k++
+			n++
+			var bad []string
+			for _, rf := range *call.Referrers() {
+				ex, ok := rf.(*ssa.Extract)
+				if !ok || ex.Index == res.Len()-1 {
+					continue
+				}
+				for _, u := range *ex.Referrers() {
+					if _, dbg := u.(*ssa.DebugRef); dbg {
+						continue
+					}
+					if _, isPhi := u.(*ssa.Phi); isPhi {
+						continue
+					}
+					for _, e := range edges {
+						if edgeDominates(e.b, e.succ, u.Block()) {
+							bad = append(bad, c.pos(u.Pos()))
+							break
+						}
+					}
+				}
+			}
+			construct := fmt.Sprintf("%s:%s#%d", fnName(f), lastSeg(calleeName(&call.Call)), k)
+			if _, okP := c15PartialResultOK[fnName(f)+":"+lastSeg(calleeName(&call.Call))]; okP {
+				return
+			}
+			c.check(len(bad) == 0, r, construct, c.pos(in.Pos()), "the value is used on the success edge", "the value returned by "+calleeName(&call.Call)+" is used only where its error is non-nil ("+strings.Join(bad, ", ")+"): the check is inverted, the attribute is dropped whenever it is present")
+		})
+	}
+	if n < floor {
+		c.undecided(r, "floor", fmt.Sprintf("%d fallible calls examined, %d+ expected", n, floor))
 	}
 }
